@@ -231,6 +231,15 @@ enum Won {
 
 /// Racing opens from threads under the controlled scheduler (every filesystem call is a scheduling point).
 pub fn c11_threads(im: &Image, n: u64, racers: usize, bound: usize, label: &str, res: &mut WorkerResult) -> Vec<(String, String, Value)> {
+    c11_threads_n(im, &vec![n; racers], bound, label, res)
+}
+
+/// Racing opens; racer i uses num_ops_per_wal = ns[i]. With different values on a fresh directory the value stored at
+/// creation must be the winner's (a loser must not have touched the settings), and reopening with it must succeed.
+pub fn c11_threads_n(im: &Image, ns: &[u64], bound: usize, label: &str, res: &mut WorkerResult) -> Vec<(String, String, Value)> {
+    let racers = ns.len();
+    let n = ns[0];
+    let mixed = ns.iter().any(|x| *x != n);
     let mut out: Vec<(String, String, Value)> = Vec::new();
     // reference: directory after a solo open + drop
     let solo = {
@@ -242,7 +251,7 @@ pub fn c11_threads(im: &Image, n: u64, racers: usize, bound: usize, label: &str,
         util::rm_rf(&d);
         i
     };
-    let conf = Cfg { n, async_mode: false }.config();
+    let ns_v: Vec<u64> = ns.to_vec();
     let mut run = |prefix: &[usize]| -> Option<sched::Execution> {
         let dir = util::fresh_dir("race");
         im.materialize(&dir);
@@ -250,7 +259,7 @@ pub fn c11_threads(im: &Image, n: u64, racers: usize, bound: usize, label: &str,
         let handles: Arc<Mutex<Vec<Cas<K>>>> = Arc::new(Mutex::new(Vec::new()));
         let bodies: Vec<Body> = (0..racers)
             .map(|id| {
-                let (d, c, r, h) = (dir.clone(), conf.clone(), results.clone(), handles.clone());
+                let (d, c, r, h) = (dir.clone(), Cfg { n: ns_v[id], async_mode: false }.config(), results.clone(), handles.clone());
                 let b: Body = Box::new(move || {
                     let w = match util::catch(|| Cas::<K>::open(&d, c)) {
                         Ok(Ok(cas)) => {
@@ -270,7 +279,7 @@ pub fn c11_threads(im: &Image, n: u64, racers: usize, bound: usize, label: &str,
         res.count("executions", 1);
         res.count("transitions", exec.points.len() as u64);
         let choices = exec.choices();
-        let case = json!({"engine": "open", "kind": "threads", "store": label, "n": n, "racers": racers, "schedule": choices});
+        let case = json!({"engine": "open", "kind": "threads", "store": label, "n": n, "ns": ns_v, "racers": racers, "schedule": choices});
         match &exec.outcome {
             Outcome::Completed => {
                 let r = results.lock().unwrap().clone();
@@ -291,7 +300,17 @@ pub fn c11_threads(im: &Image, n: u64, racers: usize, bound: usize, label: &str,
                 }
                 handles.lock().unwrap().clear();
                 let after = Image::load(&dir);
-                if oks == 1 && !after.eq_ignoring_lock(&solo) {
+                if mixed && oks == 1 {
+                    let winner = r.iter().find(|(_, w)| matches!(w, Won::Ok)).map(|(i, _)| ns_v[*i]).unwrap();
+                    let stored = String::from_utf8_lossy(after.files.get("db_settings.json").map(|v| v.as_slice()).unwrap_or(b"")).into_owned();
+                    if !stored.contains(&format!("\"num_ops_per_wal\":{winner}}}")) && !stored.contains(&format!("\"num_ops_per_wal\":{winner},")) {
+                        out.push(("settings-not-the-winners".into(), format!("racing first opens with num_ops_per_wal {ns_v:?}: the winner used {winner} but the stored settings are {stored} (schedule {choices:?})"), case.clone()));
+                    }
+                    if let Err(e) = real::open_cas::<K>(&dir, &Cfg { n: winner, async_mode: false }.config()) {
+                        out.push(("reopen-with-winners-settings-failed".into(), format!("racing first opens with {ns_v:?}, winner {winner}: {e} (schedule {choices:?})"), case.clone()));
+                    }
+                }
+                if !mixed && oks == 1 && !after.eq_ignoring_lock(&solo) {
                     out.push(("race-left-different-directory".into(), format!("on {label}: directory after the race differs from a solo open: {} (schedule {choices:?})", solo.diff(&after)), case.clone()));
                 }
                 res.outcomes.insert(format!("{racers} racers on {label}: {oks} ok / {} already-opened", r.len() - oks));
@@ -317,7 +336,7 @@ pub fn c11_threads(im: &Image, n: u64, racers: usize, bound: usize, label: &str,
         std::process::exit(2);
     }
     res.count("programs", 1);
-    res.state(&format!("threads|{label}|{racers}"));
+    res.state(&format!("threads|{label}|{ns_v:?}"));
     // one finding per oracle
     let mut kept: Vec<(String, String, Value)> = Vec::new();
     for f in out {
@@ -534,6 +553,12 @@ pub fn run(tier: &str, slice: (u64, u64), _seed: u64, prop: &str) -> WorkerResul
             }
         }
         if mine(&mut j) {
+            // two first opens racing with different num_ops_per_wal: the stored creation-time value must be the winner's
+            for (o, d, c) in c11_threads_n(&Image::default(), &[2, 3], 2, "fresh directory", &mut res) {
+                push(&mut res, "C19", o, d, c);
+            }
+        }
+        if mine(&mut j) {
             for (o, d) in c19_precreate(&mut res) {
                 push(&mut res, "C19", o, d, json!({"engine": "open", "kind": "c19-precreate"}));
             }
@@ -551,6 +576,11 @@ pub fn run(tier: &str, slice: (u64, u64), _seed: u64, prop: &str) -> WorkerResul
             }
             if mine(&mut j) {
                 for (o, d, c) in c11_threads(&im, n, 3, if tier == "quick" { 1 } else { 2 }, label, &mut res) {
+                    push(&mut res, "C11", o, d, c);
+                }
+            }
+            if h.is_none() && mine(&mut j) {
+                for (o, d, c) in c11_threads_n(&im, &[2, 3], if tier == "quick" { 2 } else { 3 }, label, &mut res) {
                     push(&mut res, "C11", o, d, c);
                 }
             }
@@ -603,7 +633,8 @@ pub fn replay(case: &Value) -> Vec<Violation> {
             let im = store_image(n, &h);
             let found = if kind == "threads" {
                 // re-explore the (small) program; the recorded schedule is among the explored ones
-                c11_threads(&im, n, case["racers"].as_u64().unwrap() as usize, 3, label, &mut res)
+                let ns: Vec<u64> = serde_json::from_value(case["ns"].clone()).unwrap_or_else(|_| vec![n; case["racers"].as_u64().unwrap() as usize]);
+                c11_threads_n(&im, &ns, 3, label, &mut res)
             } else {
                 c11_processes(&im, n, label, &mut res)
             };
